@@ -366,7 +366,8 @@ def write_replay(prop, payload):
 
 
 def write_evidence(prop, ev):
-    d = os.path.join(VERIF, 'evidence')
+    # evidence/ describes /repo itself; runs against a scratch copy (mutant self-tests) are kept apart
+    d = os.path.join(VERIF, 'evidence') if os.path.realpath(REPO) == '/repo' else os.path.join(WORK, 'evidence_scratch')
     os.makedirs(d, exist_ok=True)
     with open(os.path.join(d, f'{prop}.json'), 'w') as f:
         json.dump(ev, f, indent=1, default=str)
